@@ -525,8 +525,51 @@ class Exec:
             except _Continue:
                 continue
 
+    def sorted_map_loop(self, keys, s, fr):
+        """for idx in sorted(M): ACC.extend(M[idx]) | ACC += M[idx] | ACC.append(M[idx])   (M[idx] optionally [::-1]) with ACC an
+        empty list / bytes / bytearray before the loop: the loop form of the comprehensions in combined_comprehension."""
+        from .symmap import Combined, ChunkSeq
+        unmodelled = Unsupported('loop over sorted(symbolic map) of an unmodelled shape')
+        if len(s.body) != 1 or s.orelse or not isinstance(s.target, ast.Name):
+            raise unmodelled
+        key = s.target.id
+        st = s.body[0]
+        m = keys.map
+
+        def chunk_expr(node):
+            rev = False
+            if self._is_full_reverse(node):
+                rev = True
+                node = node.value
+            if isinstance(node, ast.Subscript) and isinstance(node.slice, ast.Name) and node.slice.id == key and self.eval(node.value, fr) is m:
+                return rev
+            return None
+        acc_node, mode, rev = None, None, None
+        if isinstance(st, ast.Expr) and isinstance(st.value, ast.Call) and isinstance(st.value.func, ast.Attribute) and st.value.func.attr in ('extend', 'append') \
+                and len(st.value.args) == 1 and not st.value.keywords:
+            acc_node, mode, rev = st.value.func.value, st.value.func.attr, chunk_expr(st.value.args[0])
+        elif isinstance(st, ast.AugAssign) and isinstance(st.op, ast.Add):
+            acc_node, mode, rev = st.target, 'extend', chunk_expr(st.value)
+        if acc_node is None or rev is None:
+            raise unmodelled
+        acc = self.concretize(self.eval(acc_node, fr))
+        empty = (isinstance(acc, (list, bytes, bytearray)) and len(acc) == 0) or (isinstance(acc, SBytes) and len(acc) == 0)
+        if not empty:
+            raise unmodelled
+        if mode == 'append':
+            if not isinstance(acc, list):
+                raise unmodelled
+            val = ChunkSeq(m.snapshot(), 'asc', rev)
+        else:
+            val = Combined(m.snapshot(), 'asc', rev, None, as_list=isinstance(acc, list))
+        self.assign(acc_node if isinstance(acc_node, (ast.Name, ast.Attribute, ast.Subscript)) else s.target, val, fr)
+
     def st_For(self, s, fr):
-        it = self.iterate(self.eval(s.iter, fr))
+        first = self.eval(s.iter, fr)
+        from .symmap import SortedKeys
+        if isinstance(first, SortedKeys):
+            return self.sorted_map_loop(first, s, fr)
+        it = self.iterate(first)
         broke = False
         for x in it:
             self.assign(s.target, x, fr)
